@@ -460,8 +460,8 @@ func (h *Hist) scan() {
 	ctx.Entries = append([]sim.Entry(nil), w.J[h.journalMark:]...)
 	h.journalMark = len(w.J)
 	for _, e := range ctx.Entries {
-		if e.Err == "injected" {
-			ctx.Faulted = true
+		if e.Err == "injected" || e.Err == "conflict" {
+			ctx.Faulted = true // an injected failure, or an update refused because another client wrote first
 		}
 	}
 	h.Scans++
